@@ -126,7 +126,7 @@ def number(units):
     return flat
 
 
-def render(units, ref_scopes, intr, shadows):
+def render(units, ref_scopes, intr, shadows, bystander=False):
     """shadows: dict scope_idx -> decl kind index.  Every scope in ref_scopes
     gets a reference.  Returns source text."""
     name, args, _, declname, _eff = intr
@@ -136,6 +136,10 @@ def render(units, ref_scopes, intr, shadows):
         out = []
         if s.idx in shadows:
             out.append(ind + DECLS[shadows[s.idx]] % declname)
+        elif bystander:
+            # an unrelated USE in every scope that declares nothing: it must
+            # not stop the search of the enclosing scopes
+            out.append(ind + "use other_mod, only: zzq%d" % s.idx)
         out.append(ind + "real :: y, w(3), x%d" % s.idx)
         return out
 
@@ -218,7 +222,7 @@ def render(units, ref_scopes, intr, shadows):
     return "\n".join(lines) + "\n"
 
 
-def expected_tables(units, intr, shadows, ref_scopes=()):
+def expected_tables(units, intr, shadows, ref_scopes=(), bystander=False):
     name = intr[3]
 
     def rec(s):
@@ -231,6 +235,8 @@ def expected_tables(units, intr, shadows, ref_scopes=()):
                 mods.add("mm")
             else:
                 syms.add(name)
+        elif bystander:
+            mods.add("other_mod")
         tname = s.name.lower()
         if s.kind == "block":
             tname = "nb%d" % s.idx if s.wrap == "named" else "block"
@@ -275,12 +281,12 @@ def reference_classes(tree, flat, ref_scopes):
     return out
 
 
-def judge(units, flat, src, std, intr, shadows, ref_scopes):
+def judge(units, flat, src, std, intr, shadows, ref_scopes, bystander=False):
     out = []
     o = try_parse(src, std)
     if not o.ok:
         return [("rejected:" + o.klass(), (o.msg or "")[:200])], o
-    exp = expected_tables(units, intr, shadows, ref_scopes)
+    exp = expected_tables(units, intr, shadows, ref_scopes, bystander)
     obs = observed_tables()
     if obs != exp:
         out.append(("table-tree", "symbol tables differ from the scope tree\n  observed: %s\n  model   : %s" % (obs, exp)))
@@ -327,7 +333,8 @@ def run(task):
     tier, shape = task
     res = Result()
     for units, flat, intr, shadows, ref_scopes, stds in cases(tier, shape):
-        src = render(units, ref_scopes, intr, shadows)
+      for bystander in ((False, True) if len(shadows) <= 1 else (False,)):
+        src = render(units, ref_scopes, intr, shadows, bystander)
         for std in stds:
             res.evals += 1
             res.transitions += 1 + len(shadows)
@@ -335,12 +342,12 @@ def run(task):
             res.states.add(hk)
             if len(flat) >= 2:
                 res.nontrivial.add(hk)
-            vs, o = judge(units, flat, src, std, intr, shadows, ref_scopes)
+            vs, o = judge(units, flat, src, std, intr, shadows, ref_scopes, bystander)
             res.outcomes["ok" if not vs else vs[0][0]] += 1
             if o.ok:
                 res.results.add(h64(repr(observed_tables()), repr(sorted(reference_classes(o.tree, flat, ref_scopes).items()))))
             for kind, detail in vs:
-                res.violation("C16|%s|%s" % (kind, feature(shape, shadows, flat)), "shape %s reference %s shadows %s std=%s\n%s\n--- source:\n%s" % (shape, intr[0], {flat[i].kind + " " + flat[i].name: DECLS[k] % intr[3] for i, k in shadows.items()}, std, detail, src), {"shape": shape, "intr": list(intr), "shadows": {str(k): v for k, v in shadows.items()}, "std": std}, cost=len(src) + 1000 * len(shadows))
+                res.violation("C16|%s|%s" % (kind, feature(shape, shadows, flat)), "shape %s reference %s shadows %s std=%s\n%s\n--- source:\n%s" % (shape, intr[0], {flat[i].kind + " " + flat[i].name: DECLS[k] % intr[3] for i, k in shadows.items()}, std, detail, src), {"shape": shape, "intr": list(intr), "shadows": {str(k): v for k, v in shadows.items()}, "std": std, "bystander": bystander}, cost=len(src) + 1000 * len(shadows))
         if res.evals % 60 == 1:
             res.sample({"shape": shape, "shadows": {flat[i].name: DECLS[k] % intr[3] for i, k in shadows.items()}, "source": src})
     return res
@@ -352,6 +359,7 @@ def replay(case):
     shadows = {int(k): v for k, v in case["shadows"].items()}
     intr = tuple(case["intr"])
     ref_scopes = set(range(len(flat)))
-    src = render(units, ref_scopes, intr, shadows)
-    vs, o = judge(units, flat, src, case["std"], intr, shadows, ref_scopes)
+    by = bool(case.get("bystander"))
+    src = render(units, ref_scopes, intr, shadows, by)
+    vs, o = judge(units, flat, src, case["std"], intr, shadows, ref_scopes, by)
     return [{"sig": "C16|%s|%s" % (k, feature(case["shape"], shadows, flat)), "detail": d} for k, d in vs]
